@@ -1,5 +1,7 @@
 import TflModel.Model.Dykstra
 import TflModel.Lemmas.Idx
+import TflModel.Lemmas.DykstraExec
+import TflModel.Lemmas.Trapezoid
 import Mathlib.Tactic.Ring
 import Mathlib.Tactic.Linarith
 /-!
@@ -21,6 +23,14 @@ Proved (for every group list, every iteration count, every kernel):
   group map to `pairProj` (stencils of one group are disjoint by parity) and `monoGroup_fix` shows a
   monotone kernel is fixed by it; the ties of the other groups to their stencil maps are exercised
   by the correspondence of every run, not proved.
+* T2 for ALL group kinds and on the EXECUTABLE loop the driver runs (`dykstraIterT`,
+  `projectByDykstraT`): `groups_fix` (a kernel feasible for the configuration — `FeasibleD`: pair
+  directions incl. unimodality, `EdgeOK`, `TrapOK`, monotonic / range dominance, joint monotonicity —
+  is fixed on the box by every group map), `projectByDykstraT_fixpoint` / `_feasible` /
+  `_fixpoint_normal` / `dykstraT_fixpoint_state` (unchanged for every iteration count; locality of
+  every group map is proved in `Lemmas/DykstraExec.lean`, `groups_local`), `projectByDykstraT_twice`.
+* T3 on the executable loop: `dykstraIterT_telescoping`, `projectByDykstraT_telescoping`;
+  `projectByDykstraT_agree` ties the table loop to the function-level loop on the box.
 NOT proved (said in DESIGN.md): that the iterates converge (Boyle–Dykstra 1986). The
 "violation → 0" and "limit is the nearest point" clauses are `C08_limit_partial`: tested every run
 against a QP solver, not proved.
@@ -260,5 +270,371 @@ example : sqProj 0 0 4 0 = (1, -1, 3, 1) := by decide +kernel
 example : (dykstraIter [fun w => w] 5 ((fun _ => 7), [fun _ => 0])).1 [] = 7 := by
   rw [show ([fun _ => (0 : ℚ)] : List W) = [fun w : W => w].map (fun _ => fun _ => 0) from rfl,
     dykstra_fixpoint _ _ (by simp)]
+
+/-! ### feasible kernels are fixed (on the box) by every group map -/
+
+/-- a kernel satisfying the trust's Edgeworth inequalities is fixed by all four Edgeworth groups -/
+theorem edgeworthGroup_fix (sizes : List Nat) (tr : Trust) (g0 g1 : Nat) (w : W) (hw : EdgeOK sizes tr w) :
+    AgreeOn sizes (edgeworthGroup (sizes.getD tr.main 0) (sizes.getD tr.cond 0) tr g0 g1 w) w := by
+  intro idx hr
+  simp only [edgeworthGroup]
+  cases h0 : stencilBase g0 (sizes.getD tr.main 0) (coord idx tr.main) with
+  | none => rfl
+  | some i0 =>
+    cases h1 : stencilBase g1 (sizes.getD tr.cond 0) (rev (sizes.getD tr.cond 0) tr.pos (coord idx tr.cond)) with
+    | none => rfl
+    | some j0 =>
+      have hi := (stencilBase_some h0).1
+      have hj := (stencilBase_some h1).1
+      simp only
+      have hd : (gat w tr.main tr.cond (i0 + 1) (rev (sizes.getD tr.cond 0) tr.pos j0) idx
+            - gat w tr.main tr.cond i0 (rev (sizes.getD tr.cond 0) tr.pos j0) idx)
+          - (gat w tr.main tr.cond (i0 + 1) (rev (sizes.getD tr.cond 0) tr.pos (j0 + 1)) idx
+            - gat w tr.main tr.cond i0 (rev (sizes.getD tr.cond 0) tr.pos (j0 + 1)) idx) ≤ 0 := by
+        cases hp : tr.pos with
+        | true =>
+          have := hw idx hr i0 j0 hi hj
+          simp only [hp, if_true, eviol] at this
+          simpa [rev] using this
+        | false =>
+          have := hw idx hr i0 (sizes.getD tr.cond 0 - 2 - j0) hi (by omega)
+          simp only [hp, Bool.false_eq_true, if_false, eviol] at this
+          have e1 : sizes.getD tr.cond 0 - 2 - j0 + 1 = sizes.getD tr.cond 0 - 1 - j0 := by omega
+          have e2 : sizes.getD tr.cond 0 - 1 - (j0 + 1) = sizes.getD tr.cond 0 - 2 - j0 := by omega
+          rw [e1] at this
+          simp only [rev, Bool.false_eq_true, if_false, e2]
+          linarith
+      rw [max_eq_right (by linarith)]
+      split_ifs <;> simp
+
+
+/-- the two trapezoid inequalities of a feasible kernel, read on the (possibly reversed) layer list
+the group projection works with -/
+theorem trap_lines {sizes : List Nat} {tr : Trust} (hwf : TrustWF sizes tr) {w : W} (hw : TrapOK sizes tr w)
+    {idx : Idx} (hr : InRange sizes idx) {j0 : Nat} (hj : j0 + 1 < sizes.getD tr.cond 0) :
+    gat w tr.main tr.cond 0 (rev (sizes.getD tr.cond 0) tr.pos (j0 + 1)) idx
+        ≤ gat w tr.main tr.cond 0 (rev (sizes.getD tr.cond 0) tr.pos j0) idx ∧
+      gat w tr.main tr.cond (sizes.getD tr.main 0 - 1) (rev (sizes.getD tr.cond 0) tr.pos j0) idx
+        ≤ gat w tr.main tr.cond (sizes.getD tr.main 0 - 1) (rev (sizes.getD tr.cond 0) tr.pos (j0 + 1)) idx := by
+  obtain ⟨hm, hc, hne⟩ := hwf
+  have hM : 0 < sizes.getD tr.main 0 := inRange_pos hr hm
+  have key : ∀ (x y : Nat), x < sizes.getD tr.main 0 → y + 1 < sizes.getD tr.cond 0 →
+      InRange sizes (setc (setc idx tr.main x) tr.cond y) ∧
+      coord (setc (setc idx tr.main x) tr.cond y) tr.main = x ∧
+      coord (setc (setc idx tr.main x) tr.cond y) tr.cond = y ∧
+      setc (setc (setc idx tr.main x) tr.cond y) tr.cond (y + 1) = setc (setc idx tr.main x) tr.cond (y + 1) := by
+    intro x y hx hy
+    refine ⟨inRange_setc (inRange_setc hr hx) (by omega), ?_, ?_, setc_setc_same _ _ _ _⟩
+    · rw [coord_setc_ne _ (Ne.symm hne), coord_setc_same _ (by rw [hr.1]; exact hm)]
+    · rw [coord_setc_same _ (by rw [length_setc, hr.1]; exact hc)]
+  unfold TrapOK at hw
+  simp only [gat]
+  cases hp : tr.pos with
+  | true =>
+    simp only [hp, if_true] at hw
+    simp only [rev, if_true]
+    obtain ⟨a1, a2, a3, a4⟩ := key 0 j0 hM hj
+    obtain ⟨b1, b2, b3, b4⟩ := key (sizes.getD tr.main 0 - 1) j0 (by omega) hj
+    have h1 := hw.1 _ a1 a2 (by rw [a3]; exact hj)
+    have h2 := hw.2 _ b1 b2 (by rw [b3]; exact hj)
+    rw [a3, a4] at h1
+    rw [b3, b4] at h2
+    exact ⟨h1, h2⟩
+  | false =>
+    simp only [hp, Bool.false_eq_true, if_false] at hw
+    simp only [rev, Bool.false_eq_true, if_false]
+    have hj' : sizes.getD tr.cond 0 - 1 - (j0 + 1) + 1 < sizes.getD tr.cond 0 := by omega
+    have e : sizes.getD tr.cond 0 - 1 - (j0 + 1) + 1 = sizes.getD tr.cond 0 - 1 - j0 := by omega
+    obtain ⟨a1, a2, a3, a4⟩ := key 0 _ hM hj'
+    obtain ⟨b1, b2, b3, b4⟩ := key (sizes.getD tr.main 0 - 1) _ (by omega) hj'
+    have h1 := hw.1 _ a1 a2 (by rw [a3]; exact hj')
+    have h2 := hw.2 _ b1 b2 (by rw [b3]; exact hj')
+    rw [a3, a4, e] at h1
+    rw [b3, b4, e] at h2
+    exact ⟨h1, h2⟩
+
+/-- a kernel satisfying the trust's trapezoid inequalities is fixed by both trapezoid groups -/
+theorem trapezoidGroup_fix (sizes : List Nat) (tr : Trust) (g : Nat) (hwf : TrustWF sizes tr) (w : W)
+    (hw : TrapOK sizes tr w) :
+    AgreeOn sizes (trapezoidGroup (sizes.getD tr.main 0) (sizes.getD tr.cond 0) tr g w) w := by
+  intro idx hr
+  simp only [trapezoidGroup]
+  cases h1 : stencilBase g (sizes.getD tr.cond 0) (rev (sizes.getD tr.cond 0) tr.pos (coord idx tr.cond)) with
+  | none => rfl
+  | some j0 =>
+    obtain ⟨l1, l2⟩ := trap_lines hwf hw hr (stencilBase_some h1).1
+    simp only
+    rw [max_eq_right (by linarith), max_eq_right (by linarith)]
+    split_ifs <;> simp
+
+
+/-- monotonic dominance of `dom` over `weak` (the two triangle inequalities of every 2×2 cell, as
+`lattice_lib.assert_constraints` checks them): `L[i+1][j] ≥ (L[i][j] + L[i+1][j+1])/2 ≥ L[i][j+1]` -/
+def MonoDomOK (sizes : List Nat) (dom weak : Nat) (w : W) : Prop :=
+  ∀ idx, InRange sizes idx → ∀ i j, i + 1 < sizes.getD dom 0 → j + 1 < sizes.getD weak 0 →
+    (gat w dom weak i j idx + gat w dom weak (i + 1) (j + 1) idx) / 2 ≤ gat w dom weak (i + 1) j idx ∧
+    gat w dom weak i (j + 1) idx ≤ (gat w dom weak i j idx + gat w dom weak (i + 1) (j + 1) idx) / 2
+
+/-- joint monotonicity in `(d1, d2)`: `L[i+1][j+1] ≥ (L[i+1][j] + L[i][j+1])/2 ≥ L[i][j]` -/
+def JointMonoOK (sizes : List Nat) (d1 d2 : Nat) (w : W) : Prop :=
+  ∀ idx, InRange sizes idx → ∀ i j, i + 1 < sizes.getD d1 0 → j + 1 < sizes.getD d2 0 →
+    (gat w d1 d2 (i + 1) j idx + gat w d1 d2 i (j + 1) idx) / 2 ≤ gat w d1 d2 (i + 1) (j + 1) idx ∧
+    gat w d1 d2 i j idx ≤ (gat w d1 d2 (i + 1) j idx + gat w d1 d2 i (j + 1) idx) / 2
+
+/-- range dominance of `dom` over `weak`: at every vertex `(i, j)` the range along the weak
+dimension does not exceed the range along the dominant one -/
+def RangeDomOK (sizes : List Nat) (dom weak : Nat) (w : W) : Prop :=
+  ∀ idx, InRange sizes idx → ∀ i j, i < sizes.getD dom 0 → j < sizes.getD weak 0 →
+    (gat w dom weak i (sizes.getD weak 0 - 1) idx - gat w dom weak i 0 idx)
+      - (gat w dom weak (sizes.getD dom 0 - 1) j idx - gat w dom weak 0 j idx) ≤ 0
+
+theorem monoDomGroup_fix (sizes : List Nat) (dom weak g0 g1 : Nat) (g2 : Bool) (w : W)
+    (hw : MonoDomOK sizes dom weak w) :
+    AgreeOn sizes (monoDomGroup (sizes.getD dom 0) (sizes.getD weak 0) dom weak g0 g1 g2 w) w := by
+  intro idx hr
+  simp only [monoDomGroup]
+  cases h0 : stencilBase g0 (sizes.getD dom 0) (coord idx dom) with
+  | none => rfl
+  | some i0 =>
+    cases h1 : stencilBase g1 (sizes.getD weak 0) (coord idx weak) with
+    | none => rfl
+    | some j0 =>
+      obtain ⟨l1, l2⟩ := hw idx hr i0 j0 (stencilBase_some h0).1 (stencilBase_some h1).1
+      simp only
+      rw [max_eq_right (by linarith), min_eq_right (by linarith)]
+      split_ifs <;> simp
+
+theorem jointMonoGroup_fix (sizes : List Nat) (d1 d2 g0 g1 : Nat) (g2 : Bool) (w : W)
+    (hw : JointMonoOK sizes d1 d2 w) :
+    AgreeOn sizes (jointMonoGroup (sizes.getD d1 0) (sizes.getD d2 0) d1 d2 g0 g1 g2 w) w := by
+  intro idx hr
+  simp only [jointMonoGroup]
+  cases h0 : stencilBase g0 (sizes.getD d1 0) (coord idx d1) with
+  | none => rfl
+  | some i0 =>
+    cases h1 : stencilBase g1 (sizes.getD d2 0) (coord idx d2) with
+    | none => rfl
+    | some j0 =>
+      obtain ⟨l1, l2⟩ := hw idx hr i0 j0 (stencilBase_some h0).1 (stencilBase_some h1).1
+      simp only
+      rw [max_eq_right (by linarith), min_eq_right (by linarith)]
+      split_ifs <;> simp
+
+theorem rangeDomGroup_fix (sizes : List Nat) (dom weak i j : Nat) (hi : i < sizes.getD dom 0)
+    (hj : j < sizes.getD weak 0) (w : W) (hw : RangeDomOK sizes dom weak w) :
+    AgreeOn sizes (rangeDomGroup (sizes.getD dom 0) (sizes.getD weak 0) dom weak i j w) w := by
+  intro idx hr
+  have l := hw idx hr i j hi hj
+  simp only [rangeDomGroup]
+  rw [max_eq_right (by linarith), max_eq_right (by linarith)]
+  split_ifs <;> simp
+
+/-- the direction `_project_partial_monotonicity` enforces on every adjacent pair of dimension `d`
+(increasing everywhere for a monotone dimension; valley / peak halves for unimodality) holds -/
+def PairsOK (sizes : List Nat) (mono : Bool) (unimod : Int) (d : Nat) (w : W) : Prop :=
+  ∀ idx, InRange sizes idx → coord idx d + 1 < sizes.getD d 0 →
+    match pairKind mono unimod (sizes.getD d 0) (coord idx d) with
+    | .incr => w idx ≤ w (setc idx d (coord idx d + 1))
+    | .decr => w (setc idx d (coord idx d + 1)) ≤ w idx
+    | .none => True
+
+theorem pairsOK_of_mono {sizes : List Nat} {d : Nat} (hd : d < sizes.length) {w : W} (unimod : Int)
+    (hw : MonoAx sizes d w) : PairsOK sizes true unimod d w := by
+  intro idx hr hlt
+  simp only [pairKind, if_true]
+  exact hw idx hr hd hlt
+
+/-- monotone AND unimodal dimensions: a kernel whose adjacent pairs all have the enforced direction
+is fixed by both monotonicity groups (generalises `monoGroup_fix`) -/
+theorem monoGroup_fix_pairs (sizes : List Nat) (mono : Bool) (unimod : Int) (d g : Nat)
+    (hd : d < sizes.length) (w : W) (hw : PairsOK sizes mono unimod d w) :
+    AgreeOn sizes (monoGroup (sizes.getD d 0) mono unimod d g w) w := by
+  intro idx hr
+  have hl : d < idx.length := by rw [hr.1]; exact hd
+  simp only [monoGroup]
+  split_ifs with h1 h2
+  · have := hw idx hr (inGroup_lt h1)
+    cases hk : pairKind mono unimod (sizes.getD d 0) (coord idx d) with
+    | incr => rw [hk] at this; exact min_eq_left (by linarith)
+    | decr => rw [hk] at this; exact max_eq_left (by linarith)
+    | none => rfl
+  · have hlt := inGroup_lt h2.2
+    have hin : InRange sizes (setc idx d (coord idx d - 1)) := inRange_setc hr (by omega)
+    have := hw _ hin (by rw [coord_setc_same _ hl]; exact hlt)
+    rw [coord_setc_same _ hl, setc_setc_same, show coord idx d - 1 + 1 = coord idx d by omega,
+      setc_coord_self hl] at this
+    cases hk : pairKind mono unimod (sizes.getD d 0) (coord idx d - 1) with
+    | incr => rw [hk] at this; exact max_eq_left (by linarith)
+    | decr => rw [hk] at this; exact min_eq_left (by linarith)
+    | none => rfl
+  · rfl
+
+
+/-- `w` satisfies, on the box, every constraint `project_by_dykstra` projects onto for the
+configuration `c` (monotone / unimodal pair directions, Edgeworth, trapezoid, monotonic dominance,
+range dominance, joint monotonicity) -/
+structure FeasibleD (c : DCfg) (w : W) : Prop where
+  pairs : ∀ d, d < c.sizes.length → PairsOK c.sizes (c.mono.getD d false) (c.unimod.getD d 0) d w
+  edge : ∀ tr ∈ c.edgeworth, EdgeOK c.sizes tr w
+  trap : ∀ tr ∈ c.trapezoid, TrapOK c.sizes tr w
+  mdom : ∀ p ∈ c.monoDom, MonoDomOK c.sizes p.1 p.2 w
+  rdom : ∀ p ∈ c.rangeDom, RangeDomOK c.sizes p.1 p.2 w
+  jmono : ∀ p ∈ c.jointMono, JointMonoOK c.sizes p.1 p.2 w
+
+/-- **C08-T2 (all group kinds).** A feasible kernel is fixed on the box by EVERY group projection
+the loop visits. (`hwf`: trapezoid trusts name two different dimensions of the lattice — what
+`verify_hyperparameters` guarantees.) -/
+theorem groups_fix (c : DCfg) (w : W) (hwf : ∀ tr ∈ c.trapezoid, TrustWF c.sizes tr) (hf : FeasibleD c w) :
+    ∀ P ∈ groups c, AgreeOn c.sizes (P w) w := by
+  intro P hP
+  simp only [groups, List.mem_append, List.mem_flatMap, List.mem_range] at hP
+  rcases hP with ((((hP | hP) | hP) | hP) | hP) | hP
+  · obtain ⟨d, hd, hP⟩ := hP
+    split_ifs at hP
+    · cases hP
+    · obtain ⟨g, _, rfl⟩ := List.mem_map.mp hP
+      exact monoGroup_fix_pairs c.sizes _ _ d g hd w (hf.pairs d hd)
+  · obtain ⟨tr, htr, hP⟩ := hP
+    obtain ⟨g, _, rfl⟩ := List.mem_map.mp hP
+    exact edgeworthGroup_fix c.sizes tr g.1 g.2 w (hf.edge tr htr)
+  · obtain ⟨tr, htr, hP⟩ := hP
+    obtain ⟨g, _, rfl⟩ := List.mem_map.mp hP
+    exact trapezoidGroup_fix c.sizes tr g (hwf tr htr) w (hf.trap tr htr)
+  · obtain ⟨p, hp, hP⟩ := hP
+    obtain ⟨g, _, rfl⟩ := List.mem_map.mp hP
+    exact monoDomGroup_fix c.sizes p.1 p.2 g.1 g.2.1 g.2.2 w (hf.mdom p hp)
+  · obtain ⟨p, hp, i, hi, hP⟩ := hP
+    obtain ⟨j, hj, rfl⟩ := List.mem_map.mp hP
+    exact rangeDomGroup_fix c.sizes p.1 p.2 i j hi (List.mem_range.mp hj) w (hf.rdom p hp)
+  · obtain ⟨p, hp, hP⟩ := hP
+    obtain ⟨g, _, rfl⟩ := List.mem_map.mp hP
+    exact jointMonoGroup_fix c.sizes p.1 p.2 g.1 g.2.1 g.2.2 w (hf.jmono p hp)
+
+/-! ### T2 on the executable loop (`dykstraIterT` / `projectByDykstraT`, what the driver runs) -/
+
+/-- **C08-T2, executable, whole state.** On a normalised table (`t = tabulate sizes t.get`; every
+table the loop itself produces is) that every group map fixes on the box, the table loop returns
+LITERALLY the same state — same table, all `last_change` tables zero — for every iteration count. -/
+theorem dykstraT_fixpoint_state (sizes : List Nat) (ps : List (W → W)) (t : Table)
+    (ht : t = tabulate sizes t.get) (h : ∀ P ∈ ps, AgreeOn sizes (P t.get) t.get) (n : Nat) :
+    dykstraIterT sizes ps n (t, ps.map (fun _ => zeroT sizes)) = (t, ps.map (fun _ => zeroT sizes)) :=
+  dykstraIterT_fix sizes ps t ht h n
+
+/-- **C08-T2, executable.** If every group map of the configuration fixes the table's kernel on the
+box, `project_by_dykstra` returns the same kernel values, for EVERY number of iterations and any
+table representation (locality of all group maps is `groups_local`, not a hypothesis). -/
+theorem projectByDykstraT_fixpoint (c : DCfg) (n : Nat) (t : Table)
+    (h : ∀ P ∈ groups c, AgreeOn c.sizes (P t.get) t.get) :
+    Table.vals c.sizes (projectByDykstraT c n t) = Table.vals c.sizes t := by
+  unfold projectByDykstraT
+  split_ifs
+  · rfl
+  · exact dykstraIterT_fix_any c.sizes (groups c) t (groups_local c) h n
+
+/-- normalised table: the result is literally the input table -/
+theorem projectByDykstraT_fixpoint_normal (c : DCfg) (n : Nat) (t : Table) (ht : t = tabulate c.sizes t.get)
+    (h : ∀ P ∈ groups c, AgreeOn c.sizes (P t.get) t.get) : projectByDykstraT c n t = t := by
+  unfold projectByDykstraT
+  split_ifs
+  · rfl
+  · simp only [dykstraIterT_fix c.sizes (groups c) t ht h n]
+
+/-- **C08-T2, executable, feasible ⇒ unchanged.** A kernel satisfying every constraint of the
+configuration passes through the executable `project_by_dykstra` unchanged (values on the box),
+for every iteration count. -/
+theorem projectByDykstraT_feasible (c : DCfg) (n : Nat) (t : Table)
+    (hwf : ∀ tr ∈ c.trapezoid, TrustWF c.sizes tr) (hf : FeasibleD c t.get) :
+    Table.vals c.sizes (projectByDykstraT c n t) = Table.vals c.sizes t :=
+  projectByDykstraT_fixpoint c n t (groups_fix c t.get hwf hf)
+
+/-- **C08-T2, executable, projecting twice.** If the result of a run is fixed by every group map
+(e.g. it is feasible), projecting it again — any iteration count — does not move it. -/
+theorem projectByDykstraT_twice (c : DCfg) (n m : Nat) (t : Table)
+    (h : ∀ P ∈ groups c, AgreeOn c.sizes (P (projectByDykstraT c n t).get) (projectByDykstraT c n t).get) :
+    Table.vals c.sizes (projectByDykstraT c m (projectByDykstraT c n t))
+      = Table.vals c.sizes (projectByDykstraT c n t) :=
+  projectByDykstraT_fixpoint c m _ h
+
+/-! ### T3 on the executable loop -/
+
+theorem rsum_agreeL {sizes : List Nat} {ts : List Table} {cs : List W} (h : AgreeL sizes ts cs) {idx : Idx}
+    (hr : InRange sizes idx) : rsum (ts.map (fun t => t.get idx)) = csum cs idx := by
+  induction h with
+  | nil => rfl
+  | cons h _ ih => simp only [List.map_cons, rsum, csum] at ih ⊢; rw [h idx hr, ih]
+
+theorem agreeL_refl (sizes : List Nat) (ts : List Table) : AgreeL sizes ts (ts.map Table.get) := by
+  induction ts with
+  | nil => exact List.Forall₂.nil
+  | cons t ts ih => exact List.Forall₂.cons (AgreeOn.refl _ _) ih
+
+/-- **C08-T3, executable.** For local group maps the table loop keeps `t − Σ_g last_change_g`
+invariant on every vertex of the box, over any number of passes and from any state. -/
+theorem dykstraIterT_telescoping (sizes : List Nat) (ps : List (W → W)) (hloc : ∀ P ∈ ps, Local sizes P)
+    (n : Nat) (t : Table) (ts : List Table) (hl : ts.length = ps.length) (idx : Idx) (hr : InRange sizes idx) :
+    (dykstraIterT sizes ps n (t, ts)).1.get idx
+        - rsum ((dykstraIterT sizes ps n (t, ts)).2.map (fun c => c.get idx))
+      = t.get idx - rsum (ts.map (fun c => c.get idx)) := by
+  obtain ⟨h1, h2⟩ := dykstraIterT_agree sizes ps hloc n (AgreeOn.refl sizes t.get) (agreeL_refl sizes ts)
+  rw [h1 idx hr, rsum_agreeL h2 hr, rsum_agreeL (agreeL_refl sizes ts) hr]
+  exact dykstraIter_telescoping ps n t.get (ts.map Table.get) (by simpa using hl) idx
+
+/-- **C08-T3 for `project_by_dykstra` itself**: with the real group schedule and the initial zero
+`last_change` tables, after `n` passes `result − Σ_g last_change_g` is the input, on every vertex. -/
+theorem projectByDykstraT_telescoping (c : DCfg) (n : Nat) (t : Table) (idx : Idx) (hr : InRange c.sizes idx) :
+    (dykstraIterT c.sizes (groups c) n (t, (groups c).map (fun _ => zeroT c.sizes))).1.get idx
+        - rsum ((dykstraIterT c.sizes (groups c) n (t, (groups c).map (fun _ => zeroT c.sizes))).2.map
+            (fun l => l.get idx))
+      = t.get idx := by
+  rw [dykstraIterT_telescoping c.sizes (groups c) (groups_local c) n t _ (by simp) idx hr]
+  have : rsum (((groups c).map (fun _ => zeroT c.sizes)).map (fun l => l.get idx)) = 0 := by
+    generalize groups c = ps
+    induction ps with
+    | nil => rfl
+    | cons P r ih =>
+      have hz : (zeroT c.sizes).get idx = 0 := by simp only [zeroT, get_tabulate' _ hr]
+      simp only [List.map_cons, rsum, ih, hz, add_zero]
+  rw [this, sub_zero]
+
+/-- the executable loop computes, on the box, exactly the function-level loop of the bookkeeping
+theorems (model-internal tie, any iteration count) -/
+theorem projectByDykstraT_agree (c : DCfg) (n : Nat) (t : Table) :
+    AgreeOn c.sizes (dykstraIterT c.sizes (groups c) n (t, (groups c).map (fun _ => zeroT c.sizes))).1.get
+      (dykstraIter (groups c) n (t.get, (groups c).map (fun _ => fun _ => 0))).1 :=
+  (dykstraIterT_agree c.sizes (groups c) (groups_local c) n (AgreeOn.refl _ _) (agreeL_zero c.sizes _)).1
+
+
+/-! ### non-vacuity of the executable statements -/
+
+theorem agreeOn_of_map_eq {sizes : List Nat} {f g : W} (h : (allIdx sizes).map f = (allIdx sizes).map g) :
+    AgreeOn sizes f g := fun idx hr => List.map_inj_left.mp h idx (mem_allIdx.mpr hr)
+
+/-- 3×3 lattice (both group parities occur), monotone in dimension 0, Edgeworth trust of 0 conditional on 1 -/
+def cEx : DCfg := { sizes := [3, 3], mono := [true, false], edgeworth := [⟨0, 1, true⟩] }
+def tEx : Table := Table.ofVals [3, 3] [0, 0, 0, 1, 2, 3, 2, 4, 6]
+
+example : (groups cEx).length = 6 := by decide +kernel
+/-- every group of `cEx` fixes `tEx`, hence EVERY iteration count returns it unchanged -/
+example (n : Nat) : Table.vals [3, 3] (projectByDykstraT cEx n tEx) = [0, 0, 0, 1, 2, 3, 2, 4, 6] := by
+  have hall : (groups cEx).all (fun P =>
+      decide ((allIdx [3, 3]).map (P tEx.get) = (allIdx [3, 3]).map tEx.get)) = true := by decide +kernel
+  have h : ∀ P ∈ groups cEx, AgreeOn cEx.sizes (P tEx.get) tEx.get := fun P hP =>
+    agreeOn_of_map_eq (of_decide_eq_true (List.all_eq_true.mp hall P hP))
+  have := projectByDykstraT_fixpoint cEx n tEx h
+  rw [show cEx.sizes = [3, 3] from rfl] at this
+  rw [this]; decide +kernel
+/-- an infeasible kernel IS moved by the same loop (the hypothesis is not vacuous) -/
+example : Table.vals [3, 3] (projectByDykstraT cEx 1 (Table.ofVals [3, 3] [1, 0, 0, 0, 0, 0, 0, 0, 0]))
+    = [1/2, 0, 0, 1/4, 0, 0, 1/4, 0, 0] := by decide +kernel
+/-- `FeasibleD` is inhabited: the kernel `idx ↦ idx₀` on a monotone 1-D lattice -/
+example : FeasibleD { sizes := [3], mono := [true] } (fun idx => (coord idx 0 : ℚ)) := by
+  refine ⟨?_, by simp, by simp, by simp, by simp, by simp⟩
+  intro d hd idx hr hlt
+  have hd0 : d = 0 := by simpa using hd
+  subst hd0
+  have hl : 0 < idx.length := by rw [hr.1]; simp
+  simp only [List.getD_cons_zero, pairKind, if_true, coord_setc_same _ hl]
+  push_cast; linarith
+
 
 end Tfl.C08
